@@ -304,7 +304,8 @@ TrBurst ==
        /\ IF r.in.how = "pub"
           THEN LET S1 == PubAllFx(Cur, FlatProg(r.in.prog, 1))
                    o  == Deliver(Settle(S1))
-               IN /\ Commit(S1)
+                   several == Cardinality({r.in.prog[j].s : j \in DOMAIN r.in.prog}) > 1
+               IN /\ IF several THEN CommitAll(S1) ELSE Commit(S1)
                   /\ Explain \/ \A s \in DOMAIN o :
                         LET a == [i \in DOMAIN o[s] |-> Blur(Canon(o[s][i]))]
                             q == LoggedFor(r, s)
